@@ -42,6 +42,9 @@ def specSet (m : Mem) (pdu s w v : Nat) : Mem := fun a =>
   if pdu ≤ a then byteOfBits (fun k => specSetBit m pdu s w v (8 * (a - pdu) + k))
   else m a
 
+/-- Zero `len` octets at `p` (what `memset(p, 0, len)` does). -/
+def zeroFill (m : Mem) (p len : Nat) : Mem := fun a => if p ≤ a ∧ a < p + len then 0 else m a
+
 /-- Store one byte. -/
 def Mem.set (m : Mem) (a : Nat) (b : Byte) : Mem := fun x => if x = a then b else m x
 
